@@ -106,6 +106,11 @@ impl Compiler for SimCompiler {
         r
     }
 
+    fn reset(&mut self) {
+        // a delegating wrapper: the real instance decides what a new resolution forgets
+        self.inner.reset();
+    }
+
     fn reduce_op(&self, op: Self::CompilerOp) -> Result<Self::Expression, RError> {
         let n = self.ops.borrow().len();
         if self.fail_op_at == Some(n) {
